@@ -3,6 +3,8 @@ package db
 import (
 	"errors"
 	"fmt"
+	"os"
+	"path/filepath"
 	"strconv"
 	"strings"
 
@@ -27,13 +29,35 @@ var (
 	ErrVAANotFound = errors.New("requested VAA not found in store")
 )
 
+// emptyLogFiles counts the zero-length memtable (.mem) and value log (.vlog) files of the badger
+// store at path.
+func emptyLogFiles(path string) int {
+	n := 0
+	entries, _ := os.ReadDir(path)
+	for _, e := range entries {
+		if ext := filepath.Ext(e.Name()); ext == ".mem" || ext == ".vlog" {
+			if fi, err := e.Info(); err == nil && fi.Size() == 0 {
+				n++
+			}
+		}
+	}
+	return n
+}
+
 func Open(path string) (*Database, error) {
-	db, err := badger.Open(badger.DefaultOptions(path))
-	if err != nil {
-		// A process kill while badger creates or deletes a memtable file can leave that file
-		// empty. badger then fails the first Open ("Create a new file") but sizes the file while
-		// doing so, and the next Open succeeds with all data. Try once more before giving up.
-		db, err = badger.Open(badger.DefaultOptions(path))
+	// A process kill while badger creates or deletes a memtable or value log file leaves that
+	// file empty, and one kill can leave several of them (the background flush removes the old
+	// memtable file while Open is still removing or creating a value log file). badger.Open
+	// fails on the first empty file it meets ("Create a new file") but sizes that file while
+	// doing so, and no data is lost. So every failed attempt repairs one file: allow one attempt
+	// per empty file, one that succeeds, and one to spare.
+	attempts := emptyLogFiles(path) + 2
+	var db *badger.DB
+	var err error
+	for i := 0; i < attempts; i++ {
+		if db, err = badger.Open(badger.DefaultOptions(path)); err == nil {
+			break
+		}
 	}
 	if err != nil {
 		return nil, fmt.Errorf("failed to open database: %w", err)
